@@ -972,8 +972,16 @@ def logb(x: Real, ctx: Context = REAL) -> Float:
     For non-zero arguments, `logb(x) = floor(log_{b}(abs(x)))`, where
     `b` is the base of the floating-point representation
     """
-    # TODO: compute `logb` for a non-dyadic fraction
-    x = _cvt_to_float(x)
+    t = _cvt_to_real(x)
+    if isinstance(t, Fraction):
+        # a non-dyadic rational is finite and non-zero, and
+        # floor(log2(abs(x))) is an integer all the same
+        n, d = abs(t.numerator), t.denominator
+        e = n.bit_length() - d.bit_length()
+        if (n < (d << e)) if e >= 0 else ((n << -e) < d):
+            e -= 1
+        return ctx.round(RealFloat.from_int(e))
+    x = t
     if x.is_nonzero():
         # finite, non-zero => floor(log2(abs(x)))
         return ctx.round(RealFloat.from_int(x.e))
